@@ -198,6 +198,50 @@ pub fn generate(args: &Args, out: &mut Out) {
             });
         }
     }
+    // wide objects (around 8, 16, 32, 64, 128 entries; duplicates of early keys with different and
+    // with equal values): against themselves, shuffled, with one value changed, with the values of
+    // two duplicates exchanged, with one entry dropped and another doubled
+    let widths: &[usize] = if full { &[7, 8, 9, 15, 16, 17, 31, 32, 33, 34, 48, 63, 64, 65, 66, 100, 127, 128, 129] } else { &[8, 9, 16, 17, 32, 33, 40, 64, 65, 129] };
+    for &w in widths {
+        for variant in 0..(if full { 6 } else { 3 }) {
+            let mut r = rng.fork();
+            let mut es: Vec<(String, String)> = vec![];
+            for i in 0..w {
+                let k = if variant > 0 && i > 0 && r.chance(1, 5) { format!("$6b,{:x}", 0x30 + r.below(i) % 10) } else { format!("$6b,{:x},{:x}", 0x30 + i / 10 % 10 + (i / 100) * 0x10, 0x30 + i % 10) };
+                let v = match r.below(4) {
+                    0 => "n".to_string(),
+                    1 => format!("#{:x}", 0x30 + r.below(10)),
+                    2 => "{ $61 n $62 [ ] }".to_string(),
+                    _ => format!("[ #{:x} ]", 0x30 + i % 10),
+                };
+                es.push((k, v));
+            }
+            let show = |es: &[(String, String)]| format!("{{ {} }}", es.iter().map(|(k, v)| format!("{k} {v}")).collect::<Vec<_>>().join(" "));
+            let a = show(&es);
+            out.case_str(&format!("u | {a} | {a}"));
+            let mut sh = es.clone();
+            for i in (1..sh.len()).rev() {
+                let j = r.below(i + 1);
+                sh.swap(i, j);
+            }
+            out.case_str(&format!("u | {a} | {}", show(&sh)));
+            let mut rev = es.clone();
+            rev.reverse();
+            out.case_str(&format!("u | {a} | {}", show(&rev)));
+            // one value changed, at the front, in the middle, at the very end
+            for at in [0, w / 2, w - 1] {
+                let mut m = sh.clone();
+                let pos = m.iter().position(|e| e == &es[at]).unwrap();
+                m[pos].1 = "f".into();
+                out.case_str(&format!("u | {a} | {}", show(&m)));
+            }
+            // last entry replaced by a copy of the first (same length, multiplicities differ)
+            let mut m = es.clone();
+            m[w - 1] = m[0].clone();
+            out.case_str(&format!("u | {a} | {}", show(&m)));
+            out.case_str(&format!("u | {} | {a}", show(&m)));
+        }
+    }
     // random large values: shuffled copies (must be equal) and single mutations (usually differ)
     let n = if full { 200000 } else { 15000 };
     for _ in 0..n {
